@@ -4,6 +4,7 @@ import CCVerif.Lemmas.SchemaGen
 import CCVerif.Lemmas.SchemaGenFrag
 import CCVerif.Lemmas.SchemaGenSim
 import CCVerif.Lemmas.CheckerAnalysis
+import CCVerif.Lemmas.Thesaurus
 /-!
 # C07 — incremental schema re-analysis equals analysis from scratch after any edits
 -/
@@ -314,3 +315,101 @@ example : (run heightA (hHist.take 5)).report heightA = [(1, some 1), (2, none),
   decide
 
 end CCVerif.SchemaGen
+
+/-! # The TEXT layer: resolved terms and definition texts (`Thesaurus`)
+
+`Model/Thesaurus.lean` transcribes `Thesaurus.cpp` (storage, `termGraph` / `defGraph` with their
+`invalid` flags, `UpdateState`, `OnTermChange` with its propagation order, `SetTermFor`,
+`SetTermFormFor`, `SetDefinitionFor`, `SetAliasFor`, `SubstitueAliases`, the `Translate*` family,
+`Emplace` / `Erase`) over a resolver `L : Lang T F` (`mentions` = `Referals`, `resolve` = `RefsManager::Resolve`
+in a term context, `translate` = `TranslateRaw`). `Lawful L` is the frame law "`Resolve` reads the
+context only at the names `Referals` lists"; `refsLang` (the C17 model of `cclLang`) satisfies it.
+
+`Acyclic L s`: the term references of the content `s` decrease a rank. `St.scratch`: a thesaurus
+freshly built from the same content (empty caches, no graphs, `UpdateState`). -/
+namespace CCVerif.Thesaurus
+
+/-- full statement: after ANY history of text-layer operations, if the term references of the final
+content are acyclic, every reported text (raw and resolved term, raw and resolved definition) is the
+one a freshly built thesaurus reports -/
+def terms_eq_scratch_statement {T F : Type} [DecidableEq T] [DecidableEq F] (L : Lang T F) : Prop :=
+  ∀ ops : List (Op T F), Acyclic L (run L ops).store →
+    (run L ops).report L = ((run L ops).scratch L).report L
+
+/-- **C07, text layer (partial).** For every resolver satisfying the frame law and every ADMISSIBLE
+history — `Emplace`/`Insert`, `Erase` of an entity whose alias no other entity carries, `SetAliasFor`
+WITHOUT substitution, `SetTermFor`, `SetTermFormFor`, `SetDefinitionFor`, `UpdateState`, in any order,
+through any cyclic intermediate contents — if the term references of the final content are acyclic,
+every resolved term and resolved definition equals the one of a from-scratch rebuild, and no unchecked
+`storage.at` was reached. Restriction (not refuted, not proved): histories containing
+`SetAliasFor(…, substitute)`, `SubstitueAliases`, `Translate`, `TranslateTerm`, `TranslateDef`,
+`TranslateAll` (in the model, compared with the code by the harness only). -/
+theorem terms_eq_scratch_partial {T F : Type} [DecidableEq T] [DecidableEq F] (L : Lang T F) (hL : Lawful L)
+    (ops : List (Op T F)) (ha : AdmissibleFrom L (St.init L) ops) (hac : Acyclic L (run L ops).store) :
+    (run L ops).report L = ((run L ops).scratch L).report L ∧ (run L ops).stuck = false := by
+  have h := WF.run hL ha
+  obtain ⟨h', hs⟩ := h.scratch hL
+  exact ⟨report_eq hL h h' hs hac, h.ok⟩
+
+/-- the same, pointwise and without global acyclicity: whatever cycles exist elsewhere, every entity that
+no reference cycle reaches (`TVal`: its resolved term is derivable) holds exactly that term, and every
+definition text whose mentions are all such holds its resolution against them -/
+theorem terms_declarative_partial {T F : Type} [DecidableEq T] [DecidableEq F] (L : Lang T F) (hL : Lawful L)
+    (ops : List (Op T F)) (ha : AdmissibleFrom L (St.init L) ops) :
+    (∀ u w, TVal L (run L ops).store u w → (run L ops).tCache u = w) ∧
+    (∀ c ∈ (run L ops).store, ∀ jf : Nat → T,
+      (∀ m ∈ L.mentions c.defRaw, ∀ a, findAliasL (run L ops).store m = some a → TVal L (run L ops).store a (jf a)) →
+      (run L ops).dCache c.uid = L.resolve c.defRaw (ctxOfL L (run L ops).store jf)) := by
+  have h := WF.run hL ha
+  exact ⟨fun u w hv => h.tsync u w trivial hv, fun c hc jf hd => h.dsync c hc trivial jf hd⟩
+
+/-- graph currency: after every admissible history each of the two graphs is either marked broken (and
+rebuilt at its next use) or represents exactly the reference relation of the content — same live
+vertices as the storage, an edge `a → b` iff the term (resp. definition text) of `b` mentions an alias
+that `FindAlias` resolves to `a` -/
+theorem text_graphs_current_partial {T F : Type} [DecidableEq T] [DecidableEq F] (L : Lang T F) (hL : Lawful L)
+    (ops : List (Op T F)) (ha : AdmissibleFrom L (St.init L) ops) :
+    ((run L ops).tInvalid = true ∨
+      ((∀ x, x ∈ Graph.liveUids (run L ops).tGraph ↔ x ∈ uids (run L ops).store) ∧
+       ∀ a b, (a, b) ∈ Graph.edges (run L ops).tGraph ↔
+         ∃ c ∈ (run L ops).store, c.uid = b ∧ ∃ m ∈ L.mentions c.termRaw, findAliasL (run L ops).store m = some a)) ∧
+    ((run L ops).dInvalid = true ∨
+      ((∀ x, x ∈ Graph.liveUids (run L ops).dGraph ↔ x ∈ uids (run L ops).store) ∧
+       ∀ a b, (a, b) ∈ Graph.edges (run L ops).dGraph ↔
+         ∃ c ∈ (run L ops).store, c.uid = b ∧ ∃ m ∈ L.mentions c.defRaw, findAliasL (run L ops).store m = some a)) := by
+  have h := WF.run hL ha
+  refine ⟨?_, ?_⟩
+  · rcases h.tg with h1 | ⟨_, hg⟩
+    · exact Or.inl h1
+    · exact Or.inr ⟨tLive_iff hg, tEdge_iff hg h.nodup⟩
+  · rcases h.dg with h1 | ⟨_, hg⟩
+    · exact Or.inl h1
+    · exact Or.inr ⟨dLive_iff hg, dEdge_iff hg h.nodup⟩
+
+/-- the resolver model of C17 (`RefsManager::Resolve` / `Referals` of the current code) satisfies the frame law -/
+theorem refs_resolver_lawful : Lawful refsLang := refsLang_lawful
+
+/-- **C07, text layer, for the modelled `cclLang` resolver** -/
+theorem terms_eq_scratch_refs_partial (ops : List (Op Strings.Bytes Refs.Morph))
+    (ha : AdmissibleFrom refsLang (St.init refsLang) ops) (hac : Acyclic refsLang (run refsLang ops).store) :
+    (run refsLang ops).report refsLang = ((run refsLang ops).scratch refsLang).report refsLang :=
+  (terms_eq_scratch_partial refsLang refsLang_lawful ops ha hac).1
+
+/-! non-vacuity: the chain X1 ← term of D1 ← definition text of D2; then the term of X1 is edited -/
+
+def b (s : String) : Strings.Bytes := s.toUTF8.toList.map (·.toNat)
+
+def chainHist : List (Op Strings.Bytes Refs.Morph) :=
+  [.insert ⟨1, "X1", b "alpha", [], []⟩,
+   .insert ⟨2, "D1", b "big @{X1|nomn,sing}", [], []⟩,
+   .insert ⟨3, "D2", [], [], b "see @{D1|nomn,sing} end"⟩,
+   .setTerm 1 (b "beta")]
+
+example : AdmissibleFrom refsLang (St.init refsLang) chainHist := ⟨trivial, trivial, trivial, trivial, trivial⟩
+example : Acyclic refsLang (run refsLang chainHist).store := acyclic_of_check (rank := id) (by decide +kernel)
+/-- all three resolved texts of the chain (term of X1, term of D1, definition of D2) equal scratch after the edit -/
+example : (run refsLang chainHist).report refsLang = ((run refsLang chainHist).scratch refsLang).report refsLang :=
+  terms_eq_scratch_refs_partial chainHist ⟨trivial, trivial, trivial, trivial, trivial⟩
+    (acyclic_of_check (rank := id) (by decide +kernel))
+
+end CCVerif.Thesaurus
